@@ -13,7 +13,10 @@ import (
 	"fmt"
 	"os"
 	"sort"
+	"strconv"
 	"strings"
+	"sync"
+	"time"
 )
 
 type Stats struct {
@@ -48,6 +51,13 @@ var executors = map[string]func(args []string) string{}
 // sub-commands registered by other files (translators that need the compiled repository):
 // fitharness <name> <args...>; a non-nil error exits 1.
 var subcommands = map[string]func(args []string) error{}
+
+// the operation the run mode is executing right now (watchdog, see main)
+var (
+	watchMu    sync.Mutex
+	watchOp    string
+	watchSince time.Time
+)
 
 func execLine(line string) (out string) {
 	defer func() {
@@ -141,8 +151,45 @@ func main() {
 			if mode == "gen" {
 				fmt.Fprintln(w, line)
 			} else {
-				fmt.Fprintf(w, "%s\t%s\n", line, execLine(line))
+				watchMu.Lock()
+				watchOp, watchSince = line, time.Now()
+				watchMu.Unlock()
+				ans := execLine(line)
+				watchMu.Lock()
+				watchOp = ""
+				watchMu.Unlock()
+				fmt.Fprintf(w, "%s\t%s\n", line, ans)
 			}
+		}
+		if mode == "run" {
+			// Watchdog: an operation of the real code that does not come back (a seeded change turned a read loop
+			// into an endless one) must become an answer, not a check that never ends. The operation goroutine
+			// cannot be stopped, so the process reports `<op> TAB hang` and exits with status 4.
+			limit := 300 * time.Second
+			if *tier == "thorough" {
+				limit = 1200 * time.Second
+			}
+			if v, err := strconv.Atoi(os.Getenv("VERIF_OP_TIMEOUT")); err == nil && v > 0 {
+				limit = time.Duration(v) * time.Second
+			}
+			go func() {
+				for {
+					time.Sleep(time.Second)
+					watchMu.Lock()
+					op, since := watchOp, watchSince
+					watchMu.Unlock()
+					if op != "" && time.Since(since) > limit {
+						w.Flush()
+						fmt.Fprintf(os.Stdout, "%s\thang\n", op)
+						if *statsFile != "" {
+							b, _ := json.Marshal(stats)
+							os.WriteFile(*statsFile, b, 0o644)
+						}
+						fmt.Fprintf(os.Stderr, "operation exceeded %v: %.300s\n", limit, op)
+						os.Exit(4)
+					}
+				}
+			}()
 		}
 		g(emit, *tier, NewRng(*seed))
 		if *statsFile != "" {
